@@ -130,3 +130,28 @@ Definition branch_hits (c : cfg) (g : Q) (ss : list sample) : list bool :=
 
 Definition branches_ok (c : cfg) (gamma : Q) (n : nat) (ss1 ssn : list sample) (expected : list bool) : bool :=
   forall2b Bool.eqb (orl (branch_hits c gamma ss1) (branch_hits c (Qpower gamma (Z.of_nat n)) ssn)) expected.
+
+(* ---------- round 3 ---------- *)
+(* actor(x, q=False) against head_dist(exp(actor(x, q=False, log=True))) (the exponential is taken outside, in float64) *)
+Definition head_ok (soft p : list (list Q)) : bool :=
+  forall2b (fun s pa => forall2b (close (1 # 100000)) (head_dist s) pa) soft p.
+(* the scalar loss returned by learn(per=True) against mean(elementwise * weights); tolerance = weighted mean of the row tolerances *)
+Definition row_tols (c : cfg) (gamma : Q) (n : nat) (m : mode) (ss1 ssn : list sample) : list Q :=
+  let gn := Qpower gamma (Z.of_nat n) in
+  let t1 := map (ce_tol c gamma) ss1 in
+  let tn := map (ce_tol c gn) ssn in
+  match m with OneStep => t1 | NStep => tn | Combined => zipadd t1 tn end.
+Definition loss_ok (c : cfg) (gamma : Q) (n : nat) (m : mode) (ss1 ssn : list sample) (ws : list Q) (loss : Q) : bool :=
+  match learn_loss c gamma n m ss1 ssn ws with
+  | Some l => existsb (near_tie c) ss1 || existsb (near_tie c) ssn ||
+              close (qmean (zipmul (row_tols c gamma n m ss1 ssn) (map Qabs ws)) + eps19 * Qabs l) l loss
+  | None => false
+  end.
+
+(* the dueling combination: log_softmax is shift-invariant, so differences of log-probabilities within one action equal
+   differences of the logits value + advantage - mean advantage *)
+Definition dueling_ok (v : list Q) (adv logp : list (list Q)) : bool :=
+  forall2b (fun lrow prow =>
+              let l0 := nth 0 lrow 0 in let p0 := nth 0 prow 0 in
+              forall2b (fun l p => close (eps16 * (Qabs l + Qabs l0 + Qabs p + Qabs p0) + (1 # 100000)) (l - l0) (p - p0)) lrow prow)
+           (dueling v adv) logp.
